@@ -80,6 +80,13 @@ func c05Gen(tier string, seed int64) []ev.Case {
 	}
 	cs = append(cs, ev.MkCase("batch", c05Batch{Ring: "strings", Seed: seed, Count: 20}))
 	cs = append(cs, ev.MkCase("batch", c05Batch{Ring: "pads", Seed: seed}))
+	nsr := 4000
+	if tier == "thorough" {
+		nsr = 1000000
+	}
+	for i := 0; i < nsr; i += 4000 {
+		cs = append(cs, ev.MkCase("batch", c05Batch{Ring: "suiterecords", Seed: seed + int64(i), Count: 4000}))
+	}
 	for _, lt := range []string{"rmcp", "message", "sdr", "getsdr", "fsr", "v2", "v1"} {
 		n := 3000
 		if tier == "thorough" {
@@ -147,6 +154,10 @@ func c05Exec(run *ev.Run, c ev.Case) {
 		var s c05Subst
 		c.Decode(&s)
 		c05SubstOne(run, s)
+	case "suitedata":
+		var in c05Input
+		c.Decode(&in)
+		c05SuiteData(run, unhex(in.Hex), "replay")
 	case "batch":
 		var b c05Batch
 		c.Decode(&b)
@@ -159,6 +170,8 @@ func c05Exec(run *ev.Run, c ev.Case) {
 			c05Strings(run, b.Seed)
 		case "pads":
 			c05Pads(run)
+		case "suiterecords":
+			c05SuiteRecords(run, b.Seed, b.Count)
 		case "packet":
 			c05PacketBatch(run, b.Layer, b.Seed, b.Count)
 		case "subst":
@@ -865,4 +878,82 @@ func c05SubstOne(run *ev.Run, s c05Subst) {
 		run.Violation("C05:unbounded:"+s.Flow, fmt.Sprintf("flow %s kept transmitting (%d sends) after one substituted reply [%s]", s.Flow, sends, class), cs, nil)
 	}
 	_ = context.Canceled
+}
+
+// c05SuiteData serves raw cipher suite record data through the real retrieval
+// (the record parser is unexported) and requires termination without a panic.
+func c05SuiteData(run *ev.Run, data []byte, class string) {
+	run.Eval(1)
+	cs := ev.MkCase("suitedata", c05Input{Layer: "suitedata", Hex: ev.Hex(data)})
+	cfg := defaultCfg(rng(int64(len(data)), "c05suite"))
+	e := NewEnv(cfg, memtr.Exact)
+	e.BMC.KeepLog = false
+	server := &refbmc.CipherSuiteServer{Channel: 1, Data: data}
+	e.BMC.Handler = server.Handle
+	ctx, cancel := e.LimitCtx(200)
+	defer cancel()
+	var pv any
+	var st string
+	hangGuard(run, 30*time.Second, func() ev.Case { return cs }, "RetrieveSupportedCipherSuites", func() {
+		pv, st = safe(func() { bmc.RetrieveSupportedCipherSuites(ctx, e.ST) })
+	})
+	run.Nontrivial(fmt.Sprintf("suitedata|%s|%d", class, len(data)%48))
+	if pv != nil {
+		run.Event("panics", 1)
+		run.Violation("C05:panic:"+panicSite(st), fmt.Sprintf("RetrieveSupportedCipherSuites panicked on record data %x: %v\n%s", data, pv, trimStack(st)), cs, nil)
+	}
+	if len(server.Requests) > 66 {
+		run.Violation("C05:unbounded:suites", fmt.Sprintf("%d Get Channel Cipher Suites requests for %d bytes of record data", len(server.Requests), len(data)), cs, nil)
+	}
+}
+
+func c05SuiteRecords(run *ev.Run, seed int64, count int) {
+	r := rng(seed, "c05suiterecords")
+	for i := 0; i < count; i++ {
+		var data []byte
+		class := "noise"
+		switch r.Intn(4) {
+		case 0:
+			data = rbytes(r, r.Intn(40))
+			for k := range data {
+				// bias towards the tag values the grammar distinguishes
+				if r.Intn(3) == 0 {
+					data[k] = []byte{0xc0, 0xc1, 0x01, 0x41, 0x81, 0x00, 0xff, 0xc2}[r.Intn(8)]
+				}
+			}
+		default:
+			recs := c16RandRecords(r, 1+r.Intn(6))
+			data = refbmc.EncodeSuiteRecords(recs)
+			class = "records"
+			if r.Intn(2) == 0 && len(data) > 0 {
+				data = data[:r.Intn(len(data)+1)]
+				class = "cut"
+			}
+			if r.Intn(3) == 0 && len(data) > 0 {
+				data[r.Intn(len(data))] = []byte{0xc0, 0xc1, 0x01, 0x41, 0x81, 0x00, 0xff}[r.Intn(7)]
+				class += "-mut"
+			}
+		}
+		c05SuiteData(run, data, class)
+	}
+	// endless full chunks
+	if seed%7 == 0 || count > 0 {
+		cfg := defaultCfg(r)
+		e := NewEnv(cfg, memtr.Exact)
+		n := 0
+		e.BMC.Handler = func(evn *refbmc.Event) (byte, []byte, bool) {
+			n++
+			return 0, append([]byte{1}, 0xc0, 0x01, 0x01, 0x41, 0x81, 0xc0, 0x02, 0x02, 0x42, 0x81, 0xc0, 0x03, 0x03, 0x44, 0x81, 0x82), true
+		}
+		ctx, cancel := e.LimitCtx(300)
+		cs := ev.MkCase("batch", c05Batch{Ring: "suiterecords", Seed: seed, Count: 0})
+		hangGuard(run, 30*time.Second, func() ev.Case { return cs }, "RetrieveSupportedCipherSuites(endless)", func() {
+			safe(func() { bmc.RetrieveSupportedCipherSuites(ctx, e.ST) })
+		})
+		cancel()
+		run.Eval(1)
+		if n > 66 {
+			run.Violation("C05:unbounded:suites", fmt.Sprintf("a BMC answering every list index with a full chunk was asked %d times", n), cs, nil)
+		}
+	}
 }
